@@ -56,6 +56,13 @@ def context_dependent(dump):
     return False
 
 
+def memoizable_comment_model(dump):
+    """Second finding class: the Comment rule's expression is not a single terminal, so comment
+    parsing is itself memoized (and interacts with Arpeggio's comment_positions table)."""
+    c = dump["comments"]
+    return c is not None and dump["nodes"][c]["kind"] not in ("KStr", "KRegex", "KEOF")
+
+
 # ---------------------------------------------------------------- cases
 CORPUS = [
     {"grammar": "Model: a=A | b=B; A[noskipws]: x=X 'q'; B: x=X 'r'; X: 'x' 'y';\n", "opts": {},
@@ -70,6 +77,8 @@ CORPUS = [
      "inputs": ["a x\ny r", "a x y q a x y r", "a x\n y q"], "tag": "corpus-eolterm"},
     {"grammar": "Model: ('k' | CB) 'r';\nComment: CL | CB;\nCL: /\\/\\/.*?$/;\nCB: '#' 'x';\n", "opts": {},
      "inputs": ["#// c\n x r", "# x r", "k r // c"], "tag": "corpus-comment-shared"},
+    {"grammar": "Model: B 'q' | 'b';\nB: /[^;\\n]+/ 'x';\nComment: /\\/\\/.*?$/ | /\\/\\*(.|\\n)*?\\*\\//;\n", "opts": {},
+     "inputs": ["b//\n/**/", "b // c\n", "b/**/ x q"], "tag": "corpus-comment-model"},
     {"grammar": "Model: (x+=X ';' | x+=X '.')#[','] ; X: 'x' | /\\d+/;\n", "opts": {},
      "inputs": ["x ; , 1 .", "1 . , x ;", "x . , x ."], "tag": "corpus-unordered"},
 ]
@@ -131,7 +140,7 @@ def model_equiv_impl(m, t):
 
 def run(chk):
     chk.prove([])
-    n, per = (900, 5) if chk.thorough else (120, 4)
+    n, per = (700, 5) if chk.thorough else (100, 4)
     cases = gen_cases(chk, n, per)
     idx = [list(range(i, len(cases), core.NPROC)) for i in range(core.NPROC)]
     idx = [ix for ix in idx if ix]
@@ -160,7 +169,8 @@ def run(chk):
         if coq_cls.get(ci) != ("T" if cc else "F") or (cc and cdep):
             disagreements.append({"case": {"grammar": case["grammar"]}, "impl": "classifier ctx_constant=%s context_dependent=%s" % (cc, cdep),
                                   "model": "Coq ctx_constant = %s" % coq_cls.get(ci)})
-        chk.stat("grammars: %s" % ("ctx_constant" if cc else ("context-dependent" if cdep else "comments, disjoint")))
+        chk.stat("grammars: %s" % ("ctx_constant" if cc else ("context-dependent" if cdep else (
+            "memoizable comment model" if memoizable_comment_model(d) else "other (terminal comment model / unordered group)"))))
         for ii, (text, run_) in enumerate(zip(case["inputs"], res["runs"])):
             if run_.get("timeout") or run_.get("unsupported"):
                 chk.stat("input skipped (timeout/unsupported)")
@@ -198,7 +208,7 @@ def run(chk):
                 bad = "model_from_str differs: without memoization %r, with memoization %r" % (m_off, m_on)
             if bad:
                 chk.stat("impl: memo changes outcome")
-                tags = ["not_ctx_constant"] if cdep else []
+                tags = (["not_ctx_constant"] if cdep else []) + (["memoizable_comment_model"] if memoizable_comment_model(d) else [])
                 failures.append({"case": cinfo, "what": bad, "tags": tags, "impl": [t_off, t_on], "model": mv})
             if chk.cov["evaluations"] % 150 == 7:
                 chk.sample({"grammar": case["grammar"], "input": text, "memo_off": t_off[:120], "memo_on": t_on[:120]})
@@ -230,5 +240,5 @@ def replay(rep):
     print("with memoization:   ", r.get("tree_on"), r.get("model_on"))
     same = r.get("tree_off") == r.get("tree_on") and r.get("model_off") == r.get("model_on")
     print("property C19 on this case:", "holds" if same else "VIOLATED",
-          "(grammar is context-dependent: known finding class)" if context_dependent(out["dump"]) else "")
+          "(known finding class)" if (context_dependent(out["dump"]) or memoizable_comment_model(out["dump"])) else "")
     return 0 if same else 1
